@@ -9,7 +9,9 @@
 (* Construction histories (StartT .. ComputeT): the calls that build ONE table object are replayed on *)
 (* the spec's `tab`; every ComputeT event carries what the object hands out at that point (value,      *)
 (* table, fuse words, exported and re-parsed object) and is decided against the documented            *)
-(* construction over what `tab` holds then - the history itself is not consulted.                     *)
+(* construction over what `tab` holds then - the history itself is not consulted.  The in-place       *)
+(* changes of an SRK table (an entry replaced in the list, Rekey, SetCa) are writes like the others:  *)
+(* a value read after one of them is decided against the contents AFTER it.                           *)
 EXTENDS Rot, Json, IOUtils
 Traces == ndJsonDeserialize(IOEnv.TRACE_FILE)
 NT == Len(Traces)
@@ -125,11 +127,15 @@ TAppendSlot == Is("AppendSlot") /\ WhyWrite = "ok" /\ AppendSlot(E.k, E.form) /\
 TClearT == Is("ClearT") /\ WhyWrite = "ok" /\ ClearT /\ Keep /\ Adv
 TAddCertificate == Is("AddCertificate") /\ WhyWrite = "ok" /\ AddCertificate(E.k) /\ Keep /\ Adv
 TSetAll == Is("SetAll") /\ WhyWrite = "ok" /\ SetAll(E.keys) /\ Keep /\ Adv
+TRekey == Is("Rekey") /\ WhyWrite = "ok" /\ Rekey(E.i, E.k) /\ Keep /\ Adv
+TSetCa == Is("SetCa") /\ WhyWrite = "ok" /\ SetCa(E.i, E.ca) /\ Keep /\ Adv
 WhyArgs == CASE E.a = "SetSlot" -> IF SetSlotOK(E.i, E.k, E.form) THEN "ok" ELSE "args"
              [] E.a = "AppendSlot" -> IF AppendOK(E.k, E.form) THEN "ok" ELSE "args"
              [] E.a = "ClearT" -> IF ClearOK THEN "ok" ELSE "args"
              [] E.a = "AddCertificate" -> IF AddCertOK(E.k) THEN "ok" ELSE "args"
              [] E.a = "SetAll" -> IF SetAllOK(E.keys) THEN "ok" ELSE "args"
+             [] E.a = "Rekey" -> IF RekeyOK(E.i, E.k) THEN "ok" ELSE "args"
+             [] E.a = "SetCa" -> IF SetCaOK(E.i, E.ca) THEN "ok" ELSE "args"
 WhyComputeT == IF ~TabLegal(tab) \/ E.fl # tab.fl THEN "legal"
                ELSE IF E.keys # TabKeys(tab) \/ E.term # TabTerm(tab) \/ E.table_term # TabTable(tab) \/ E.index # CertIndex(tab) THEN "term"
                ELSE IF Len(E.want) # E.term.len \/ Len(E.table_want) # E.table_term.len THEN "term"
@@ -149,13 +155,13 @@ Why == IF l > Len(T) THEN "end"
               [] E.a = "Build1" -> WhyBuild1 [] E.a = "Export1" -> WhyExport1 [] E.a = "Parse1" -> WhyParse1
               [] E.a \in {"WriteFile", "SetUserData", "SetConstraints", "SetImageLength"} -> "args"
               [] E.a = "StartT" -> WhyStartT [] E.a = "ComputeT" -> WhyComputeT
-              [] E.a \in {"SetSlot", "AppendSlot", "ClearT", "AddCertificate", "SetAll"} -> (IF WhyWrite # "ok" THEN WhyWrite ELSE WhyArgs)
+              [] E.a \in {"SetSlot", "AppendSlot", "ClearT", "AddCertificate", "SetAll", "Rekey", "SetCa"} -> (IF WhyWrite # "ok" THEN WhyWrite ELSE WhyArgs)
               [] OTHER -> "no-such-action"
 TInit == /\ tid \in 1..NT /\ l = 1 /\ lastSha = "" /\ Init /\ TLCSet(tid, 1) /\ TLCSet(NT + tid, "start")
 TNext == \/ TCompute \/ TComputeFor \/ TWriteFile \/ TRead
          \/ TBuild21 \/ TExport21 \/ TParse21 \/ TSetUserData \/ TSetConstraints
          \/ TBuild1 \/ TExport1 \/ TParse1 \/ TSetImageLength
-         \/ TStartT \/ TSetSlot \/ TAppendSlot \/ TClearT \/ TAddCertificate \/ TSetAll \/ TComputeT
+         \/ TStartT \/ TSetSlot \/ TAppendSlot \/ TClearT \/ TAddCertificate \/ TSetAll \/ TRekey \/ TSetCa \/ TComputeT
 Constr == (IF TLCGet(tid) <= l THEN TLCSet(tid, l) /\ TLCSet(NT + tid, Why) ELSE TRUE)
 Post == \A i \in 1..NT :
           \/ TLCGet(i) - 1 = Len(Traces[i].ev)
